@@ -20,6 +20,14 @@
 //	    such near-miss data gossiped on the P2P data path (or posted on DA under the proposer's old signature) ahead of
 //	    the genuine data (adversarial data items with Resplit > 0).
 //
+//	(f) ranges of the P2P header store (item via=range): several headers — the proposer's and third parties', at any
+//	    position — appended to the node's real go-header store as its syncer does after a range request (store.Append: no
+//	    check of its own), then ONE tick: the real HeaderStoreRetrieveLoop reads the whole range in one pass.
+//
+//	(g) non-canonical items: signer / proposer addresses of other lengths than a key address (empty next to a public key,
+//	    truncated, extended), and altered copies of genuine headers in the fields OUTSIDE Model/Types.header (ValidatorHash,
+//	    LastCommitHash, ConsensusHash, LastResultsHash, Version) under the genuine signature — on DA, on P2P, in ranges.
+//
 // Writes cases_C03.v (for Model/Admission.v) and result.json (oracle).
 package c03
 
@@ -205,6 +213,10 @@ type runResult struct {
 	scanErr         string     // processNextDAHeaderAndData returned an error on a DA height the double serves
 	foreignData     []uint64   // stored blocks whose transaction list is not, byte for byte, the proposer's list of that height
 	foreignExec     []string   // transaction lists handed to the executor that are no list of the proposer's chain
+	forced          map[uint64]string // header-store heights a range item filled with a header NOT signed by the proposer (hash)
+	rangeTaken      []admitted        // headers of a range, not signed by the proposer, that the sync loop took (cached / seen)
+	rangeAdv        bool              // a range item held a third party's header: the content of the header store is the premise
+	rangeUncovered  bool              // ... and a block from that height on is never published on DA (the P2P store was its only way in)
 }
 
 // skip: a blob signed by the proposer sat at position pos of a DA height of n blobs and was passed over
@@ -236,7 +248,10 @@ const (
 	// types.Validate / execValidate accepted, under a proposer-signed header, a transaction list other than the proposer's
 	sigForeignValid = "header-accepts-foreign-transactions"
 	// two different transaction lists with the same DACommitment
-	sigCollision = "commitment-collision"
+	// a pass of HeaderStoreRetrieveLoop over a range of the header store handed the sync loop a header the proposer
+	// did not sign (it is cached for application: nothing downstream compares the proposer with genesis)
+	sigRangeTaken = "store-range-forged-header-handed-to-syncer"
+	sigCollision  = "commitment-collision"
 	sigNotAFunc  = "commitment-differs-for-equal-lists"
 )
 
@@ -268,6 +283,10 @@ func (w *world) admissionClass(b *built) string {
 		return sigP2PData
 	}
 	return sigUnexpected
+}
+
+func (w *world) signerIsProposers(sh *types.SignedHeader) bool {
+	return sh.Signer.PubKey != nil && sh.Signer.PubKey.Equals(w.keys[1].GetPublic()) && bytes.Equal(sh.Signer.Address, w.gen.ProposerAddress)
 }
 
 func (w *world) isAdversarial(b *built) bool {
@@ -312,7 +331,78 @@ func (w *world) run(items []Item) *runResult {
 		}
 		synctest.Wait()
 	}
+	res.forced = map[uint64]string{}
 	for i, it := range items {
+		if it.Via == "range" {
+			var subs []*built
+			var terms []string
+			for _, sub := range it.Blobs {
+				sub.Via, sub.Kind = "p2p", "hdr"
+				if sub.Adv {
+					res.rangeAdv = true
+					for h := sub.H; h <= uint64(len(w.chain)); h++ {
+						if firstDA(items, h, "hdr") < 0 || firstDA(items, h, "data") < 0 {
+							res.rangeUncovered = true
+						}
+					}
+				}
+				b := w.build(sub, nil)
+				subs = append(subs, b)
+				terms = append(terms, w.sheaderTerm(b.sh))
+			}
+			out := uint64(0)
+			if !res.crashed {
+				// a go-header store grows by the next height only (heightSub.Pub): the range continues the store
+				ok := len(subs) > 0 && n.hstore.Height() > 0
+				next := n.hstore.Height() + 1
+				for _, b := range subs {
+					ok = ok && b.sh.Height() == next
+					next++
+				}
+				if ok {
+					var hs []*types.SignedHeader
+					var before []bool
+					for _, b := range subs {
+						cp := new(types.SignedHeader)
+						if err := cp.UnmarshalBinary(b.bytes); err != nil {
+							t.Fatal(err)
+						}
+						hs = append(hs, cp)
+						before = append(before, n.m.VerifC03HeaderSeen(b.sh.Hash().String()))
+					}
+					if err := n.hstore.Append(ctx, hs...); err != nil {
+						t.Fatal(err)
+					}
+					synctest.Wait()
+					tick()
+					taken := uint64(0)
+					for j, b := range subs {
+						hash := b.sh.Hash().String()
+						seen := n.m.VerifC03HeaderSeen(hash) && !before[j]
+						if seen {
+							taken++
+						}
+						if !w.headerSignedByProposer(b.sh) {
+							res.forced[b.sh.Height()] = hash
+							cached := false
+							if c := n.m.VerifC03HeaderCacheItem(b.sh.Height()); c != nil && bytes.Equal(c.Signature, b.sh.Signature) && c.Hash().String() == hash {
+								cached = true
+							}
+							sameAsGenuine := b.sh.Height() <= uint64(len(w.chain)) && bytes.Equal(b.sh.Hash(), w.chain[b.sh.Height()-1].hdr.Hash())
+							if (seen && !sameAsGenuine) || cached {
+								res.rangeTaken = append(res.rangeTaken, admitted{i, fmt.Sprintf("header %d of %d in the range, height %d (%s)", j+1, len(subs), b.sh.Height(), b.it)})
+							}
+						}
+					}
+					out = 20 + taken
+				} else {
+					tick()
+				}
+			}
+			res.outs = append(res.outs, out)
+			res.itemTerms = append(res.itemTerms, "(IStoreRange ["+strings.Join(terms, "; ")+"])")
+			continue
+		}
 		if it.Via == "dah" {
 			subs, blobs := w.buildHeight(it)
 			out := uint64(0)
@@ -385,7 +475,11 @@ func (w *world) run(items []Item) *runResult {
 		}
 		res.outs = append(res.outs, out)
 		res.itemTerms = append(res.itemTerms, w.itemTerm(b, linked))
-		if out >= 2 && w.isAdversarial(b) {
+		// a third party's copy of a genuine header whose Signer is no longer the proposer's (key or address removed,
+		// truncated, replaced): the signature still verifies over the header, ValidateBasic does not pass, go-header
+		// stores it all the same and then refuses the proposer's gossip of that height as known — the F4 mechanism
+		mangled := it.Via == "p2p" && it.Adv && b.sh != nil && !w.signerIsProposers(b.sh)
+		if out >= 2 && (w.isAdversarial(b) || mangled) {
 			cl := w.admissionClass(b)
 			if out == 3 {
 				if cl == sigF3Data && b.sd.Metadata == nil {
@@ -443,7 +537,7 @@ func (w *world) run(items []Item) *runResult {
 			t.Fatal(err)
 		}
 		res.hstore = append(res.hstore, sh.Hash().String())
-		if !w.headerSignedByProposer(sh) {
+		if !w.headerSignedByProposer(sh) && res.forced[h] != sh.Hash().String() { // a forced height is the premise of the case
 			res.unsignedStored = append(res.unsignedStored, h)
 		}
 	}
@@ -588,12 +682,15 @@ func (w *world) oracle(ref, got *runResult) (sigs []string, what map[string]stri
 		case sigPanic:
 			add(a.class, fmt.Sprintf("item %d: forged signed data without Metadata is admitted and handlePotentialData dereferences nil (the retrieve goroutine panics: the node dies)", a.idx))
 		case sigF4:
-			add(a.class, fmt.Sprintf("item %d: a header not signed by the proposer (it only names the proposer's address and hash-links to the head) was appended to the header store served to light clients", a.idx))
+			add(a.class, fmt.Sprintf("item %d: a header not signed by the proposer (it only names the proposer's address and hash-links to the head), or a third party's copy of a genuine header with the signer replaced (ValidateBasic fails on it), was appended to the header store served to light clients", a.idx))
 		case sigP2PData:
 			add(a.class, fmt.Sprintf("item %d: P2P transaction data (no signature exists on this path) from a third party was appended to the data store and handed to the syncer", a.idx))
 		default:
 			add(sigUnexpected, fmt.Sprintf("item %d: an adversarial item outside every listed class was admitted", a.idx))
 		}
+	}
+	for _, a := range got.rangeTaken {
+		add(sigRangeTaken, fmt.Sprintf("item %d: one pass of HeaderStoreRetrieveLoop over a range of the P2P header store handed the sync loop a header that the genesis proposer did not sign: %s", a.idx, a.class))
 	}
 	viaP2P := known[sigF4] || known[sigP2PData]
 	viaDA := known[sigF3Header] || known[sigF3Data] || known[sigPanic]
@@ -633,6 +730,11 @@ func (w *world) oracle(ref, got *runResult) (sigs []string, what map[string]stri
 		if got.height != ref.height || !bytes.Equal(got.app, ref.app) || !sameHeaders(got.applied, ref.applied) || got.dainc != ref.dainc {
 			wh := fmt.Sprintf("end state differs from the genuine-only run: height %d vs %d, DA-included %d vs %d", got.height, ref.height, got.dainc, ref.dainc)
 			switch {
+			case got.rangeUncovered && got.height < ref.height && len(got.applied) <= len(ref.applied) &&
+				sameHeaders(got.applied, ref.applied[len(ref.applied)-len(got.applied):]) && got.dainc <= ref.dainc:
+				// the case put a third party's header at a height of the header store (its premise, not the node's doing) and
+				// the proposer's block of that height, or a later one, is published nowhere else: the node holds a prefix of
+				// the genuine-only run's chain, block for block
 			case viaP2P:
 				add(sigDivergeP2P, wh+" (a forged item sits in a go-header store; the genuine item of that height is rejected as known)")
 			case len(got.skipped) > 0:
@@ -647,7 +749,7 @@ func (w *world) oracle(ref, got *runResult) (sigs []string, what map[string]stri
 	if len(got.unsignedStored) > 0 && !known[sigF4] {
 		add("unexplained-unsigned-header-stored", fmt.Sprintf("header store holds headers %v not signed by the proposer", got.unsignedStored))
 	}
-	if strings.Join(got.hstore, ",") != strings.Join(ref.hstore, ",") && !known[sigF4] && !got.crashed {
+	if strings.Join(got.hstore, ",") != strings.Join(ref.hstore, ",") && !known[sigF4] && !got.crashed && !got.rangeAdv {
 		add("unexplained-header-store-divergence", "header store differs from the genuine-only run")
 	}
 	return sigs, what
@@ -945,6 +1047,16 @@ func genuineOnly(items []Item) []Item {
 		if it.Adv {
 			continue
 		}
+		if it.Via == "range" { // the range as honest peers serve it: the proposer's header at every height
+			var subs []Item
+			for _, b := range it.Blobs {
+				if b.Adv {
+					b = Item{Via: "p2p", Kind: "hdr", H: b.H}
+				}
+				subs = append(subs, b)
+			}
+			it.Blobs = subs
+		}
 		if it.Via == "dah" { // the DA height without the third-party blobs
 			var keep []Item
 			for _, b := range it.Blobs {
@@ -1068,6 +1180,263 @@ func crowdHeights(r *rand.Rand, g []Item, L uint64, tier string) []Item {
 	return out
 }
 
+// ---- non-canonical items and ranges of the header store (streams f, g): PRNGs of their own -----------------------
+
+var outsideMuts = []string{"valhash", "valhash", "valhash", "valhash1", "lastcommit", "consensus", "results", "version"}
+
+func isOutsideMut(m string) bool {
+	for _, o := range outsideMuts {
+		if o == m {
+			return true
+		}
+	}
+	return false
+}
+
+// genAddrLenHdr: a header whose signer / proposer address has another length than a key address
+func genAddrLenHdr(r *rand.Rand, L uint64, via string) Item {
+	it := Item{Adv: true, Via: via, Kind: "hdr", H: 1 + uint64(r.Intn(int(L))), Salt: int64(1 + r.Intn(1000)), SignerKey: -1, SignerAddr: -1, PropAddr: -1}
+	k := 2 + r.Intn(2)
+	switch p := r.Intn(100); {
+	case p < 30: // the proposer's address in the header, a third party's key, NO signer address
+		it.Sign, it.SignerKey, it.SignerAddr = k, k, 0
+	case p < 45: // ... a truncated form of the proposer's address in the signer
+		it.Sign, it.SignerKey, it.SignerAddr = k, k, -3
+	case p < 55: // ... a truncated form of the third party's own address in the signer
+		it.Sign, it.SignerKey, it.SignerAddr = k, k, -4
+	case p < 65: // the proposer's truncated address everywhere
+		it.Sign, it.SignerKey, it.SignerAddr, it.PropAddr = k, k, -3, -3
+	case p < 73: // the third party's truncated address everywhere
+		it.Sign, it.SignerKey, it.SignerAddr, it.PropAddr = k, k, -4, -4
+	case p < 83: // the genuine header and signature, the signer's address truncated
+		it.SignerAddr = -3
+	case p < 91: // the genuine header and signature, no signer address
+		it.SignerAddr = 0
+	default: // one byte too many
+		it.Sign, it.SignerKey, it.SignerAddr = k, k, -5
+	}
+	if r.Intn(100) < 35 {
+		it.Mut = []string{"app", "time", "datahash", "last", "chain"}[r.Intn(5)]
+	}
+	return it
+}
+
+// genOutsideHdr: an altered copy of a genuine header in a field outside Model/Types.header
+func genOutsideHdr(r *rand.Rand, L uint64, via string) Item {
+	it := Item{Adv: true, Via: via, Kind: "hdr", H: 1 + uint64(r.Intn(int(L))), Salt: int64(1 + r.Intn(1000)), SignerKey: -1, SignerAddr: -1, PropAddr: -1}
+	it.Mut = outsideMuts[r.Intn(len(outsideMuts))]
+	k := 2 + r.Intn(2)
+	switch p := r.Intn(100); {
+	case p < 70: // the genuine signature and signer
+	case p < 80:
+		it.Sign, it.SignerKey, it.SignerAddr = k, k, 1
+	case p < 90:
+		it.Sign, it.SignerKey, it.SignerAddr, it.PropAddr = k, k, k, k
+	default:
+		it.Sign = -1
+	}
+	return it
+}
+
+func genAddrLenData(r *rand.Rand, L uint64) Item {
+	it := Item{Adv: true, Via: "da", Kind: "data", H: 1 + uint64(r.Intn(int(L))), Salt: int64(1 + r.Intn(1000)), SignerKey: -1, SignerAddr: -1, PropAddr: -1}
+	k := 2 + r.Intn(2)
+	it.NewTxs = r.Intn(100) < 50
+	switch p := r.Intn(100); {
+	case p < 35:
+		it.Sign, it.SignerKey, it.SignerAddr = k, k, 0
+	case p < 55:
+		it.Sign, it.SignerKey, it.SignerAddr = k, k, -3
+	case p < 70:
+		it.Sign, it.SignerKey, it.SignerAddr = k, k, -4
+	case p < 85: // the genuine data and signature, the signer's address truncated
+		it.SignerAddr, it.NewTxs = -3, false
+	default:
+		it.SignerAddr, it.NewTxs = 0, false
+	}
+	return it
+}
+
+// genRangeSub: a third party's header for position h of a range
+func genRangeSub(r *rand.Rand, L uint64, h uint64) Item {
+	var it Item
+	k := 2 + r.Intn(2)
+	switch p := r.Intn(100); {
+	case p < 45: // self-consistent: made, addressed and signed with the third party's own key
+		it = Item{Adv: true, Kind: "hdr", Sign: k, SignerKey: k, SignerAddr: k, PropAddr: k}
+	case p < 60: // the third party's key under the proposer's address
+		it = Item{Adv: true, Kind: "hdr", Sign: k, SignerKey: k, SignerAddr: 1, PropAddr: -1}
+	case p < 70: // unsigned, naming the proposer
+		it = Item{Adv: true, Kind: "hdr", Sign: -2, SignerKey: 0, SignerAddr: -1, PropAddr: -1}
+	case p < 80:
+		it = genAddrLenHdr(r, L, "p2p")
+		it.Mut = ""
+	case p < 92:
+		it = genOutsideHdr(r, L, "p2p")
+	default: // an altered copy under the genuine signature
+		it = Item{Adv: true, Kind: "hdr", SignerKey: -1, SignerAddr: -1, PropAddr: -1, Mut: "app"}
+	}
+	it.Via, it.H, it.Salt = "p2p", h, int64(1+r.Intn(1000))
+	if it.Mut == "" && r.Intn(100) < 30 {
+		it.Mut = []string{"app", "time", "datahash", "last", "chain", "height+"}[r.Intn(6)]
+	}
+	return it
+}
+
+// firstGenuineHeaderAt: index of the first item that brings the proposer's header of block h (len(items) if none)
+func firstGenuineHeaderAt(items []Item, h uint64) int {
+	for i, it := range items {
+		if !it.Adv && it.Kind == "hdr" && it.H == h && it.Via != "init" {
+			return i
+		}
+		for _, b := range it.Blobs {
+			if !b.Adv && b.Kind == "hdr" && b.H == h {
+				return i
+			}
+		}
+	}
+	return len(items)
+}
+
+func insertAt(items []Item, pos int, it Item) []Item {
+	return append(items[:pos:pos], append([]Item{it}, items[pos:]...)...)
+}
+
+// widenCase adds the items of streams (f) and (g) to a generated case.
+func widenCase(seed int64, c int, rp *Replay, L uint64) {
+	rs := rand.New(rand.NewSource(seed*7368787 + int64(c)*31 + 2203))
+	if rp.Kind == "adm" {
+		for i := 0; i < 3; i++ {
+			rp.Items = append(rp.Items, genAddrLenHdr(rs, L, "da"))
+		}
+		rp.Items = append(rp.Items, genAddrLenData(rs, L))
+		for i := 0; i < 3; i++ {
+			rp.Items = append(rp.Items, genOutsideHdr(rs, L, "da"))
+		}
+		for i := 0; i < 2; i++ {
+			it := genAddrLenHdr(rs, L, "p2p")
+			it.H = 1 + uint64(rs.Intn(int(L)+1))
+			rp.Items = append(rp.Items, it)
+			it = genOutsideHdr(rs, L, "p2p")
+			it.H = 1 + uint64(rs.Intn(int(L)+1))
+			rp.Items = append(rp.Items, it)
+		}
+		return
+	}
+	start := 0
+	for start < len(rp.Items) && rp.Items[start].Via == "init" {
+		start++
+	}
+	p2p := start > 0
+	// (g) one non-canonical item, mostly ahead of the proposer's header of its height (where it competes with it)
+	if rs.Intn(100) < 45 {
+		via := "da"
+		if p2p && rs.Intn(100) < 40 {
+			via = "p2p"
+		}
+		var it Item
+		switch p := rs.Intn(100); {
+		case p < 45:
+			it = genAddrLenHdr(rs, L, via)
+		case p < 55 && via == "da":
+			it = genAddrLenData(rs, L)
+		default:
+			it = genOutsideHdr(rs, L, via)
+		}
+		pos := start + rs.Intn(len(rp.Items)-start+1)
+		if it.Kind == "hdr" && rs.Intn(100) < 75 {
+			if via == "p2p" { // the header store only takes the next height: right ahead of the proposer's gossip of that height
+				if it.H < 2 {
+					it.H = 2
+				}
+				for i, g := range rp.Items {
+					if !g.Adv && g.Via == "p2p" && g.Kind == "hdr" && g.H == it.H {
+						pos = i
+					}
+				}
+			} else if first := firstGenuineHeaderAt(rp.Items, it.H); first >= start {
+				pos = start + rs.Intn(first-start+1)
+			}
+		}
+		rp.Items = insertAt(rp.Items, pos, it)
+	}
+	// (f) a range of the header store: the proposer's gossip headers of heights a..b arrive in ONE pass of the store
+	// loop, some positions held by a third party's header instead
+	var at []int
+	for i, it := range rp.Items {
+		if !it.Adv && it.Via == "p2p" && it.Kind == "hdr" {
+			at = append(at, i)
+		}
+	}
+	if !p2p || len(at) < 2 || rs.Intn(100) >= 55 {
+		return
+	}
+	lo := rs.Intn(len(at) - 1)
+	hi := lo + 1 + rs.Intn(len(at)-lo-1)
+	if rs.Intn(100) < 40 {
+		hi = len(at) - 1
+	}
+	rg := Item{Via: "range"}
+	nadv := 0
+	for _, i := range at[lo : hi+1] {
+		sub := rp.Items[i]
+		if rs.Intn(100) < 40 {
+			sub = genRangeSub(rs, L, sub.H)
+			nadv++
+		}
+		rg.Blobs = append(rg.Blobs, sub)
+	}
+	if nadv == 0 && rs.Intn(100) < 70 { // mostly: at least one third-party header, at any position
+		j := rs.Intn(len(rg.Blobs))
+		rg.Blobs[j] = genRangeSub(rs, L, rg.Blobs[j].H)
+	}
+	where := at[lo]
+	if rs.Intn(100) < 50 {
+		where = at[hi]
+	}
+	var out []Item
+	drop := map[int]bool{}
+	for _, i := range at[lo : hi+1] {
+		drop[i] = true
+	}
+	for i, it := range rp.Items {
+		if i == where {
+			out = append(out, rg)
+		}
+		if !drop[i] {
+			out = append(out, it)
+		}
+	}
+	// a height of the store held by a third party's header reaches the node over DA (the comparison with the genuine-only
+	// run is about what the node does with the range, not about blocks that were published on P2P only)
+	for h := rg.Blobs[0].H; h <= L; h++ {
+		if firstDA(out, h, "hdr") < 0 {
+			out = append(out, Item{Via: "da", Kind: "hdr", H: h})
+		}
+		if firstDA(out, h, "data") < 0 {
+			out = append(out, Item{Via: "da", Kind: "data", H: h})
+		}
+	}
+	rp.Items = out
+}
+
+// firstDA: index of the item that brings the proposer's header / data blob of block h over DA (-1 if none)
+func firstDA(items []Item, h uint64, kind string) int {
+	for i, it := range items {
+		if !it.Adv && it.Via == "da" && it.Kind == kind && it.H == h {
+			return i
+		}
+		if it.Via == "dah" {
+			for _, b := range it.Blobs {
+				if !b.Adv && b.Kind == kind && b.H == h {
+					return i
+				}
+			}
+		}
+	}
+	return -1
+}
+
 func caseRng(seed int64, c int) *rand.Rand { return rand.New(rand.NewSource(seed*1000003 + int64(c))) }
 
 func genTxCounts(r *rand.Rand, tier string) []int {
@@ -1181,6 +1550,29 @@ func runE2E(t *testing.T, rp Replay, tier string, doShrink map[string]bool) *cas
 			}
 		}
 		for i, it := range rp.Items {
+			if it.Via == "range" {
+				co.dist = append(co.dist, fmt.Sprintf("range:headers=%d", len(it.Blobs)))
+				last, anyAdv := it.Blobs[len(it.Blobs)-1], false
+				for _, b := range it.Blobs[:len(it.Blobs)-1] {
+					anyAdv = anyAdv || b.Adv
+				}
+				switch {
+				case anyAdv && !last.Adv:
+					co.dist = append(co.dist, "range:third-party-header-below-the-proposers-newest")
+				case last.Adv:
+					co.dist = append(co.dist, "range:third-party-header-newest")
+				default:
+					co.dist = append(co.dist, "range:proposers-headers-only")
+				}
+				if got.outs[i] >= 20 {
+					co.dist = append(co.dist, fmt.Sprintf("range:read-in-one-pass:taken=%d", got.outs[i]-20))
+				} else {
+					co.dist = append(co.dist, "range:does-not-continue-the-store")
+				}
+			}
+			if it.Adv && it.Kind == "hdr" && (isOutsideMut(it.Mut) || it.SignerAddr == 0 && it.SignerKey != 0 || it.SignerAddr <= -3 || it.PropAddr <= -3) {
+				co.dist = append(co.dist, fmt.Sprintf("e2e:non-canonical-header:%s:outcome=%d", it.Via, got.outs[i]))
+			}
 			if it.Resplit > 0 && it.Kind == "data" {
 				co.dist = append(co.dist, fmt.Sprintf("e2e:near-miss-data:%s:%s:outcome=%d", it.Via, variantName(it.Resplit), got.outs[i]))
 			}
@@ -1225,6 +1617,19 @@ func shrinkHeights(items []Item, fails func([]Item) bool) []Item {
 		return c
 	}
 	for i := range cur {
+		if cur[i].Via == "range" { // a third party's header of the range that is not needed: the proposer's header instead
+			for j, b := range cur[i].Blobs {
+				if !b.Adv {
+					continue
+				}
+				cand := append([]Item{}, cur[i].Blobs...)
+				cand[j] = Item{Via: "p2p", Kind: "hdr", H: b.H}
+				if c := with(i, cand); fails(c) {
+					cur = c
+				}
+			}
+			continue
+		}
 		if cur[i].Via != "dah" {
 			continue
 		}
@@ -1496,6 +1901,7 @@ func genCase(seed int64, c int, tier string) Replay {
 			rp.Items = append(rp.Items, Item{Via: "p2p", Kind: "hdr", H: h})
 		}
 		genTxDataItems(rand.New(rand.NewSource(seed*7368787+int64(c)*31+1301)), &rp, L)
+		widenCase(seed, c, &rp, L)
 		return rp
 	}
 	rp.Kind = "e2e"
@@ -1528,6 +1934,7 @@ func genCase(seed int64, c int, tier string) Replay {
 	}
 	rp.Items = interleave(r, g, adv)
 	genTxDataItems(rand.New(rand.NewSource(seed*7368787+int64(c)*31+1301)), &rp, L)
+	widenCase(seed, c, &rp, L)
 	return rp
 }
 
@@ -1574,6 +1981,16 @@ func TestVerif(t *testing.T) {
 		for _, it := range rp.Items {
 			res.Count("item:" + it.Via + "/" + it.Kind)
 			for _, b := range it.Blobs {
+				if it.Via == "range" {
+					if b.Adv {
+						nadv++
+						res.Count("range-header:third-party:mut=" + b.Mut)
+						res.Count(fmt.Sprintf("range-header:third-party:sign=%d,key=%d,addr=%d,prop=%d", b.Sign, b.SignerKey, b.SignerAddr, b.PropAddr))
+					} else {
+						res.Count("range-header:proposer")
+					}
+					continue
+				}
 				if b.Adv {
 					res.Count("dah-blob:" + b.Kind)
 					if !it.Adv {
@@ -1621,7 +2038,7 @@ func TestVerif(t *testing.T) {
 		}
 	}
 	res.Distinct = len(distinct)
-	res.Rule = "per case a fresh world: 3 real Ed25519 keys, a real aggregator Manager producing 3-5 blocks (thorough: 3-8; 60% non-empty); every third case = admission case (10 adversarial + all genuine DA blobs each on a fresh non-aggregator Manager; 8 adversarial + genuine gossip headers through go-header's Validate/Verify/append on a real store); other cases = end-to-end: genuine traffic (P2P init 60%, each block over DA/P2P/both, 15% neighbour swaps) interleaved at random positions with 0-4 adversarial items (45% over P2P, of which 45% data; F3 shape 38% of headers, honest third party, stolen signature, unsigned hash-linked, junk signature, wrong chain id, past/future height, future time, truncated/junk/undecodable/empty blobs, forged data with and without Metadata, linked/unlinked P2P data) on a real syncing Manager under synctest, plus the genuine-only reference run; 40% of the end-to-end cases are crowded: for 1-2 blocks delivered over DA the proposer's header and/or data blob sit in ONE DA height together with 0-350 (thorough: up to 1050) third-party blobs (sizes on the boundaries of RetrieveWithHelpers' batches of 100 ids: 99,100,101,130,...,299,300,301,350, or uniform) of the adversarial DA kinds, ahead of / between / behind the proposer's blobs (45%: the proposer's blobs last or within the trailing partial batch), 30% of them also get a DA height of third-party blobs only; such a height is published on the node's DA double and read by the real processNextDAHeaderAndData -> fetchBlobs -> types.RetrieveWithHelpers (GetIDs + batched Get) -> handlePotentialHeader/Data; transaction data (own PRNG per case): every admission case adds, per block of the chain, 2 pairs (genuine signed header, data whose transaction list is a near miss of the proposer's: 60% same concatenation = re-cut at random boundaries / one boundary moved by one byte / an empty transaction added / all merged, else any of those or swapped, rotated, truncated, duplicated, one bit flipped, protobuf tag+length inside one transaction, exact copy; 10% without Metadata, 10% wrong chain id / height / older state; for an empty block: lists of empty transactions) + 1 exact copy, handed after a wire round trip to the real types.Validate and execValidate, and 6 pairs of byte-level lists (the proposer's transactions or 1-4 invented ones of 0-6 bytes over an alphabet of framing-like bytes, 1/16 with a transaction of 128-207 bytes; base vs near miss 40%, a list against itself 10%, two near misses 50%) whose real DACommitments are compared, together with sha256(leafPrefix ++ real Data{Txs} encoding) == DACommitment; half of the end-to-end cases add one near-miss data item: gossiped on the P2P data path, hash-linked, 80% right ahead of the proposer's data of that height (where the data store takes it), or - node without P2P - posted on DA under the proposer's signature of the genuine data; non-trivial = at least one adversarial item and 4 items; distinct = distinct (tx counts, item list)"
+	res.Rule = "per case a fresh world: 3 real Ed25519 keys, a real aggregator Manager producing 3-5 blocks (thorough: 3-8; 60% non-empty); every third case = admission case (10 adversarial + all genuine DA blobs each on a fresh non-aggregator Manager; 8 adversarial + genuine gossip headers through go-header's Validate/Verify/append on a real store); other cases = end-to-end: genuine traffic (P2P init 60%, each block over DA/P2P/both, 15% neighbour swaps) interleaved at random positions with 0-4 adversarial items (45% over P2P, of which 45% data; F3 shape 38% of headers, honest third party, stolen signature, unsigned hash-linked, junk signature, wrong chain id, past/future height, future time, truncated/junk/undecodable/empty blobs, forged data with and without Metadata, linked/unlinked P2P data) on a real syncing Manager under synctest, plus the genuine-only reference run; 40% of the end-to-end cases are crowded: for 1-2 blocks delivered over DA the proposer's header and/or data blob sit in ONE DA height together with 0-350 (thorough: up to 1050) third-party blobs (sizes on the boundaries of RetrieveWithHelpers' batches of 100 ids: 99,100,101,130,...,299,300,301,350, or uniform) of the adversarial DA kinds, ahead of / between / behind the proposer's blobs (45%: the proposer's blobs last or within the trailing partial batch), 30% of them also get a DA height of third-party blobs only; such a height is published on the node's DA double and read by the real processNextDAHeaderAndData -> fetchBlobs -> types.RetrieveWithHelpers (GetIDs + batched Get) -> handlePotentialHeader/Data; transaction data (own PRNG per case): every admission case adds, per block of the chain, 2 pairs (genuine signed header, data whose transaction list is a near miss of the proposer's: 60% same concatenation = re-cut at random boundaries / one boundary moved by one byte / an empty transaction added / all merged, else any of those or swapped, rotated, truncated, duplicated, one bit flipped, protobuf tag+length inside one transaction, exact copy; 10% without Metadata, 10% wrong chain id / height / older state; for an empty block: lists of empty transactions) + 1 exact copy, handed after a wire round trip to the real types.Validate and execValidate, and 6 pairs of byte-level lists (the proposer's transactions or 1-4 invented ones of 0-6 bytes over an alphabet of framing-like bytes, 1/16 with a transaction of 128-207 bytes; base vs near miss 40%, a list against itself 10%, two near misses 50%) whose real DACommitments are compared, together with sha256(leafPrefix ++ real Data{Txs} encoding) == DACommitment; half of the end-to-end cases add one near-miss data item: gossiped on the P2P data path, hash-linked, 80% right ahead of the proposer's data of that height (where the data store takes it), or - node without P2P - posted on DA under the proposer's signature of the genuine data; non-canonical items (own PRNG per case): every admission case adds on DA 3 headers whose signer / proposer address has another length than a key address (third-party key with NO signer address 30%, with a 1/2/20/31-byte prefix of the proposer's or of its own address, prefixes everywhere, the genuine header and signature with the signer's address truncated or removed, one byte too many; 35% with a field mutation on top), 1 signed-data blob of that kind, 3 altered copies of a genuine header in a field OUTSIDE the model's header (ValidatorHash 32 bytes or 1 byte, LastCommitHash, ConsensusHash, LastResultsHash, Version.App; 70% under the genuine signature and signer, else re-signed by a third party under the proposer's / its own address or junk-signed), and 2+2 of them as gossip headers through go-header's Validate/Verify/append; 45% of the end-to-end cases add one such item (40% over P2P when the node has P2P), 75% of the headers ahead of the proposer's header of that height (P2P: right ahead of the proposer's gossip of that height); ranges of the header store: 55% of the P2P end-to-end cases replace the proposer's gossip headers of heights a..b (2 or more) by ONE item = those heights appended to the node's real go-header store in one store.Append (no check of its own: what its syncer does after a range request), then one tick, so the real HeaderStoreRetrieveLoop reads the whole range in one pass; each position holds a third party's header with probability 40% (at least one in 70% of the all-genuine draws): self-consistent under the third party's own key and address 45%, third-party key under the proposer's address 15%, unsigned naming the proposer 10%, non-canonical address 10%, altered outside field 12%, altered copy under the genuine signature 8%; 30% of those without a mutation get one (app, time, datahash, last, chain, or height+ - with height+ the range does not continue the store and is not appended); every block from the first third-party position on is also published on DA (appended to the traffic if it was not); the reference run gets the range with the proposer's header at every position; observed per range: how many of its headers the sync loop took (headerCache seen) and the end state; the oracle flags a header of a range not signed by the proposer that the sync loop took or cached; non-trivial = at least one adversarial item and 4 items; distinct = distinct (tx counts, item list)"
 	res.Cases = len(cases)
 	header := "From Coq Require Import String NArith ZArith List Bool.\nFrom Verif Require Import Model.Types Model.Admission Check.AdmissionCheck.\nLocal Open Scope N_scope."
 	path := filepath.Join(e.Out, "cases_C03.v")
